@@ -106,7 +106,7 @@ pub fn weights(p: Prop) -> [u8; NOPS] {
         Prop::C04 => [10, 4, 4, 1, 1, 1, 1, 1, 1, 5, 3, 5, 3, 4, 1, 4, 6, 6, 3, 2, 0, 0, 0, 2, 0, 4],
         Prop::C05 => [10, 5, 5, 1, 2, 0, 0, 2, 2, 6, 4, 4, 1, 2, 3, 1, 8, 2, 3, 3, 0, 0, 0, 0, 1, 5],
         Prop::C06 => [10, 4, 4, 3, 3, 3, 2, 1, 1, 5, 3, 3, 1, 3, 6, 3, 6, 3, 0, 3, 0, 0, 4, 3, 1, 3],
-        Prop::C09 => [12, 3, 3, 1, 1, 0, 0, 0, 0, 9, 4, 3, 0, 1, 16, 0, 2, 1, 0, 0, 0, 0, 0, 0, 0, 0],
+        Prop::C09 => [12, 3, 3, 2, 1, 1, 1, 1, 0, 9, 4, 3, 0, 1, 16, 0, 2, 1, 0, 0, 0, 0, 0, 0, 0, 0],
         Prop::C10 => [14, 3, 3, 1, 0, 0, 0, 0, 0, 7, 3, 2, 0, 9, 1, 9, 1, 2, 0, 0, 0, 0, 0, 0, 0, 0],
         Prop::C11 => [10, 3, 3, 1, 0, 0, 0, 0, 0, 7, 3, 2, 0, 1, 0, 0, 24, 1, 0, 0, 0, 0, 0, 0, 0, 0],
         Prop::C12 => [14, 10, 10, 1, 0, 3, 0, 0, 0, 5, 4, 1, 0, 1, 3, 3, 10, 1, 6, 0, 0, 0, 0, 0, 0, 4],
@@ -164,6 +164,8 @@ pub struct MapEng<'c, KD: Kind, const N: usize> {
     pub ever_overflow: bool,
     /// the current op went through an unsafe fast path (C18 scope)
     pub op_unchecked: bool,
+    /// the op in flight only called `&self` methods (get, get_key_value, contains_key, index)
+    pub op_readonly: bool,
     pub ever_unchecked: bool,
     pub ever_cloned: bool,
 }
@@ -212,6 +214,7 @@ impl<'c, KD: Kind, const N: usize> MapEng<'c, KD, N> {
             op_overflow: false,
             ever_overflow: false,
             op_unchecked: false,
+            op_readonly: false,
             ever_unchecked: false,
             ever_cloned: false,
         }
@@ -385,6 +388,12 @@ impl<'c, KD: Kind, const N: usize> MapEng<'c, KD, N> {
                     cx.chk(p_well, got == Ok(Some(o.ka)), "yield-vs-get_key_value", || format!("get_key_value({}) does not return the yielded key", o.raw));
                 }
             }
+            if self.op_readonly && !liar {
+                // "iterating twice without an intervening mutation yields the same order": a call that
+                // takes `&self` is no mutation
+                let same = slot.order.len() == obs.len() && slot.order.iter().zip(obs.iter()).all(|(a, o)| *a == o.raw);
+                cx.chk(PS::of(Prop::C09), same, "order-stable", || format!("iteration order changed across a read-only lookup: {:?} before, {:?} after", slot.order, obs.iter().map(|o| o.raw).collect::<Vec<_>>()));
+            }
             slot.order.clear();
             slot.order.extend(obs.iter().map(|o| o.raw));
             if obs.is_empty() {
@@ -516,6 +525,7 @@ impl<'c, KD: Kind, const N: usize> MapEng<'c, KD, N> {
         self.cur_target = w;
         self.op_overflow = false;
         self.op_unchecked = false;
+        self.op_readonly = matches!(opi, OP_GET | OP_GET_KV | OP_CONTAINS | OP_INDEX);
         let (a, b, c) = (raw[1], raw[2], raw[3] & 0x7f);
         let lied0 = tl::liar_lies();
         match opi {
